@@ -167,7 +167,16 @@ def check(run, ctx):
     unit = isinstance(comp.args[0], ast.Name) and comp.args[0].id == gc_.node.args.args[1].arg
     ma = pmc.methods["match_allow_patterns"]
     ret = next((n.value for n in ast.walk(ma.node) if isinstance(n, ast.Return)), None)
-    per_pattern = isinstance(ret, ast.Call) and call_name(ret) == "any" and ret.args and isinstance(ret.args[0], ast.GeneratorExp) and ast.unparse(ret.args[0].generators[0].iter) == ma.node.args.args[2].arg and not ret.args[0].generators[0].ifs
+    apar = ma.node.args.args[2].arg
+    per_pattern = isinstance(ret, ast.Call) and call_name(ret) == "any" and ret.args and isinstance(ret.args[0], (ast.GeneratorExp, ast.ListComp)) and ast.unparse(ret.args[0].generators[0].iter) == apar and not ret.args[0].generators[0].ifs
+    if not per_pattern:
+        # the same thing spelled as a loop: for p in allow_patterns: if <search hit>: return True ... return False
+        body = [st for st in ma.node.body if not (isinstance(st, ast.Expr) and isinstance(st.value, ast.Constant))]
+        loops = [st for st in body if isinstance(st, ast.For) and ast.unparse(st.iter) == apar]
+        last = body[-1] if body else None
+        per_pattern = (len(loops) == 1 and not loops[0].orelse and not any(isinstance(x, (ast.Break, ast.Continue)) for x in ast.walk(loops[0]))
+                       and any(isinstance(i_, ast.If) and any(is_call_named(c, "search") for c in ast.walk(i_.test)) and any(isinstance(r_, ast.Return) and isinstance(r_.value, ast.Constant) and r_.value.value is True for r_ in i_.body) for i_ in loops[0].body)
+                       and isinstance(last, ast.Return) and isinstance(last.value, ast.Constant) and last.value.value is False)
     combined = [n for m_ in pmc.methods.values() for n in ast.walk(m_.node) if isinstance(n, ast.Call) and call_name(n) == "join" and isinstance(n.func.value, ast.Constant) and "|" in str(n.func.value.value)]
     if unit and per_pattern and not combined:
         run.ok(V5, "allow matching", "any(search(p) for p in allow_patterns): each validated pattern is matched on its own; an empty allow list allows nothing")
